@@ -105,6 +105,25 @@ def rewrite_sim(rel, text, arch, osname, counts):
     text, n = re.subn(r'(?<![A-Za-z0-9_:])(?:std|core)::ptr::', '::simos::ptr::', text)
     cnt("ptr_path", n)
     text, n = re.subn(r'(?<![A-Za-z0-9_:])(?:std|core)::slice::from_raw_parts', '::simos::slice_from_raw_parts', text)
+    # method forms of raw-pointer accesses
+    m = 0
+    text, n = re.subn(r'\.read_(?:unaligned|volatile)\(\)', '.sim_read()', text)
+    m += n
+    text, n = re.subn(r'(as \*(?:const|mut) [A-Za-z0-9_:<>]+\))\.read\(\)', r'\1.sim_read()', text)
+    m += n
+    text, n = re.subn(r'\.write_(?:unaligned|volatile)\(', '.sim_write(', text)
+    m += n
+    if m:
+        lines = text.split("\n")
+        at = 0
+        for i, l in enumerate(lines):
+            if l.startswith("#![") or (i == at and (l.strip() == "" or l.startswith("//"))):
+                at = i + 1
+            else:
+                break
+        lines.insert(at, "#[allow(unused_imports)]\nuse ::simos::{SimPtrConst as _, SimPtrMut as _};")
+        text = "\n".join(lines)
+    cnt("ptr_methods", m)
     text, n = re.subn(r'(?<![A-Za-z0-9_:])core::arch::asm!\(', '::simos::sim_asm!(', text)
     cnt("asm", n)
     text, n = re.subn(r'(?<![A-Za-z0-9_:])std::arch::asm!\(', '::simos::sim_asm!(', text)
